@@ -46,7 +46,7 @@ type RunCtx struct {
 
 // Failf records a violation.
 func (rc *RunCtx) Failf(sig string, format string, a ...any) {
-	if rc.Muted && !strings.Contains(sig, "linearizable") && !strings.HasPrefix(sig, "concurrent-copies") {
+	if rc.Muted && !strings.Contains(sig, "linearizable") && !strings.HasPrefix(sig, "concurrent-copies") && !strings.HasPrefix(sig, "spurious-listen-error") {
 		return
 	}
 	for _, v := range rc.Viols {
@@ -86,6 +86,10 @@ type Scenario struct {
 	Post func(rc *RunCtx, res *simrt.Result)
 	// PanicIsViolation: panics in repository tasks are this property's concern.
 	PanicIsViolation bool
+	// LivelockIsViolation: a task of the code under test that spins through
+	// scheduling points without ever blocking (the run is cut short) is this
+	// property's concern (something is never reclaimed / a call never returns).
+	LivelockIsViolation bool
 }
 
 var scenarios = map[string]*Scenario{}
